@@ -207,6 +207,10 @@ _MISSING = object()
 def _eq(E, x, y):
     if x is _MISSING:
         return False
+    if getattr(E, 'valuation', None) is not None and all(isinstance(v, (int, float, fractions.Fraction)) and not isinstance(v, bool) for v in (x, y)):
+        # replay on doubles: a float literal of the state (decimal meaning) and the value lifted from the real object
+        # (binary meaning) denote the same double
+        return float(x) == float(y)
     if isinstance(x, (Sym, int, float, fractions.Fraction)) and not isinstance(x, bool) and \
        isinstance(y, (Sym, int, float, fractions.Fraction)) and not isinstance(y, bool):
         if kind_of(x) != kind_of(y) and 'bool' in (kind_of(x), kind_of(y)):
